@@ -126,7 +126,8 @@ a key column: the result has exactly the key columns and the column `key`, with 
 column `key` is `d`'s column `vc`, where `vc` is `key` itself if `d` has such a column, else `data`,
 else the only non-key column of `d`. -/
 theorem item_sem (d t : Table) (key : String) (on : List String) (hd : d.WF)
-    (hon : ∀ c ∈ on, c ∈ d.cols) (hkey : key ∉ on) (h : item d key on = .ok t) :
+    (hdn : d.cols.Nodup) (hon : ∀ c ∈ on, c ∈ d.cols) (hkey : key ∉ on)
+    (h : item d key on = .ok t) :
     KeyedSrc on t key ∧ t.nrows = d.nrows ∧
     (∀ c ∈ on, ∀ i, t.jcellAt c i = d.jcellAt c i) ∧
     ∃ vc, vc ∈ d.cols ∧ vc ∉ on ∧ (∀ i, t.jcellAt key i = d.jcellAt vc i) ∧
@@ -143,7 +144,16 @@ theorem item_sem (d t : Table) (key : String) (on : List String) (hd : d.WF)
     intro d' hr hn hs
     obtain ⟨hw, hn'⟩ := select_wf d' t _ (hn ▸ hr) hne hs
     have hc := select_cols d' t _ hs
-    refine ⟨⟨hw, ?_, ?_, hkey, ?_⟩, hn'.trans hn, fun c hc' i => select_cell d' t _ hs c hc' i⟩
+    have hond : OnNodup on t := by
+      simp only [OnNodup, hc, List.filter_append]
+      have e1 : (linter d.cols on).filter (fun c => on.contains c) = linter d.cols on := by
+        apply List.filter_eq_self.2
+        intro c hc
+        simpa using (mem_linter.1 hc).2
+      have e2 : [key].filter (fun c => on.contains c) = [] := by simp [hkey]
+      rw [e1, e2, List.append_nil]
+      exact hdn.sublist List.filter_sublist
+    refine ⟨⟨hw, ?_, ?_, hkey, ?_, hond⟩, hn'.trans hn, fun c hc' i => select_cell d' t _ hs c hc' i⟩
     · intro c hc'; rw [hc]; exact List.mem_append.2 (.inl ((hmem c).2 hc'))
     · rw [hc]; simp
     · intro c hc'
